@@ -260,4 +260,9 @@ def ob_lis_refusal():
 
 
 def obligations(tier):
-    return [ob_osdd_algebra(), ob_osdd_refusal(), ob_tables(), ob_lis_algebra(), ob_lis_refusal()]
+    q = tier == 'quick'
+    return [ob_osdd_algebra(), ob_osdd_refusal(), ob_tables(), ob_lis_algebra(), ob_lis_refusal(),
+            Ob('array_conversion_types_and_shapes', 'ch', 'convert_array / convert_array_inplace on arrays of float64, float32, int64, int32, int16, uint8 (1-D and 2x2), 7 unit pairs of the packaged OSDD table '
+               '(with and without offsets, identity), 4 value sets: equal to element-wise scalar conversion, argument left untouched',
+               ['common.units.convert_array', 'common.units.convert_array_inplace', 'common.units.convert', 'common.units.read_osdd_static_data'],
+               harness='C17_arrays', func='array_conversion', timeout=170 if q else 600, unblock=True, stubs=['reads the packaged osdd_units.json'])]
